@@ -875,20 +875,26 @@ def search_failing(ctx, broken):
             continue
         got = [F(0)] * 3 if pr is None else [F(pr['loop']), None if pr['wf'] is None else F(pr['wf']), F(pr['pieces'])]
         if any(g != sp[1] for g in got):
+            if classify(case, obs) is not None:
+                continue          # a listed finding of the unchanged code, keep searching
             return case, obs, 'the template denotes the duration %s, the program reports loop/waveform/pieces = %s' % (
                 sp[1], [str(g) for g in got])
     return None
 
 
 MANIFEST = {
-    'level_text': 'Proof (Coq, unbounded in tree shape, counts, ranges, parameters) that in the model the duration '
-                  'expression of a template, Loop.duration of the instantiated program, the duration of the program '
-                  'rendered as one waveform and the sum over the played pieces are the same rational, whenever the '
-                  'template has a meaningful duration; range length closed form for both step signs; n repetitions of a '
-                  'leaf last exactly n x the leaf.  The model is tied to /repo by an exact correspondence check.',
+    'level_text': 'Proof (Coq, unbounded in tree shape, counts, ranges, parameters; all template kinds): whenever a template '
+                  'denotes a duration d (guard_C04), Loop.duration of the instantiated program, the duration of the '
+                  'program rendered as one waveform and the sum over the played pieces all equal d, an empty program '
+                  'means d = 0; range length/elements closed form for both step signs; n repetitions of a leaf last '
+                  'exactly n x the leaf.  The symbolic duration expression is proved equal to d only for templates '
+                  'without for-loop/table/atomic arithmetic (_partial); those cases are tested by the correspondence. '
+                  'Four input classes on which the unchanged code disagrees are refuted by witnesses and listed as known '
+                  'findings.',
     'level_note': 'Trusted: Coq kernel, sympy/numpy evaluation of the closed forms (compared case by case, not proved), '
                   'shortest-decimal float conversion (C14), harness.  Binary float arithmetic inside duration expressions '
-                  'is outside the property and not judged.',
-    'technique': 'Coq proof by induction over template trees + correspondence check (model and specification evaluated in coqc)',
+                  'is outside the property and not judged (counted as excluded_float_arith).',
+    'technique': 'Coq proof by induction over template/program trees + correspondence check (model and specification '
+                 'evaluated in coqc on the implementation\'s observations)',
     'design_ref': 'DESIGN.md §5 C04',
 }
